@@ -203,6 +203,48 @@ pub fn run(s: &mut Src, ctx: &mut Ctx) -> Verdict {
             return Verdict::fail("fired-counter-vs-contexts", format!("rep {}: total_rules_fired={} but {} contexts fired", rep, par.total_rules_fired, fired_n));
         }
     }
+    // Two callers at once: `execute_parallel` takes `&self` and the engine is Sync, so one engine may serve two threads
+    // at the same time -- one more schedule the statement quantifies over. Each caller brings its own copy of the facts
+    // and must get the one-by-one verdicts. (Every second case by rule count: a pure function of the case, no draw.)
+    if c.rules.len() % 2 == 0 {
+        let calls = if ctx.thorough { 6 } else { 3 };
+        let outcome: Vec<Result<(), (String, String)>> = std::thread::scope(|sc| {
+            let hs: Vec<_> = (0..2)
+                .map(|who| {
+                    let (kb, eng, store, seq_map, seq) = (&kb, &par_engine, &c.store, &seq_map, &seq);
+                    sc.spawn(move || {
+                        for k in 0..calls {
+                            let own = store.to_facts();
+                            let r = match catch(|| eng.execute_parallel(kb, &own, false)) {
+                                Ok(Ok(r)) => r,
+                                Ok(Err(e)) => return Err(("parallel-error:two-callers".to_string(), format!("caller {} call {}: {}", who, k, e))),
+                                Err(p) => return Err((format!("panic@{}", p.split(": ").next().unwrap_or("?")), p)),
+                            };
+                            let m: BTreeMap<String, bool> = r.execution_contexts.iter().map(|cx| (cx.rule.name.clone(), cx.fired)).collect();
+                            if m != *seq_map || r.execution_contexts.len() != m.len() || r.total_rules_evaluated != seq.total_rules_evaluated || r.total_rules_fired != seq.total_rules_fired {
+                                let d: Vec<String> = seq_map.iter().filter(|(k, v)| m.get(*k) != Some(v)).map(|(k, v)| format!("{}: one-by-one fired={} got {:?}", k, v, m.get(k))).collect();
+                                return Err((
+                                    "fired-set-differs:two-callers-on-one-engine".to_string(),
+                                    format!(
+                                        "caller {} call {} (another thread was calling execute_parallel on the same engine): {} contexts, evaluated={} fired={}; one by one: evaluated={} fired={}; {:?}",
+                                        who, k, r.execution_contexts.len(), r.total_rules_evaluated, r.total_rules_fired, seq.total_rules_evaluated, seq.total_rules_fired, d
+                                    ),
+                                ));
+                            }
+                        }
+                        Ok(())
+                    })
+                })
+                .collect();
+            hs.into_iter().map(|h| h.join().unwrap_or_else(|_| Err(("harness-thread-died".to_string(), String::new())))).collect()
+        });
+        for o in outcome {
+            if let Err((sig, detail)) = o {
+                return Verdict::fail(sig, detail);
+            }
+        }
+        ctx.label("two-callers-on-one-engine");
+    }
     // The same engine object is then handed ANOTHER knowledge base (execute_parallel takes the knowledge base as an
     // argument): same name, same number of mutations, the same rules added in reverse order with every second enabled
     // flag flipped. What it reports must again be what a fresh engine's one-by-one path reports for THAT knowledge base.
